@@ -56,7 +56,7 @@ def _run_search(ctx, extra):
         return None, 'harness build failed: ' + log[-1500:]
     cwd = ctx.scratch('c19search')
     env = dict(VERIF_SEED=str(ctx.seed + 7919), VERIF_TIER=ctx.tier, VERIF_CORPUS=os.path.join(vlib.VERIF, 'corpus', ctx.pid))
-    rc, so, se = vlib.run([binp, 'mode=search', 'tier=' + ctx.tier] + extra, cwd=cwd, env=env, timeout=1200)
+    rc, so, se = vlib.run([binp, 'mode=search', 'tier=' + ctx.tier] + extra, cwd=cwd, env=env, timeout=600)
     shutil.rmtree(cwd, ignore_errors=True)
     if rc != 0:
         return None, 'searcher exited %d: %s' % (rc, (se or so)[-1500:])
@@ -68,7 +68,7 @@ def search(ctx, hints):
     res = dict(evaluations=0, distinct_nontrivial=0, violations=[], samples=[])
     broke = bool(hints.get('broken'))
     if broke or ctx.thorough():
-        args = ['seqs=300', 'maxops=40', 'depth=4']
+        args = ['seqs=100', 'maxops=30', 'depth=3']
     else:
         args = ['seqs=25', 'maxops=30', 'depth=2']
     so, err = _run_search(ctx, args)
